@@ -79,13 +79,13 @@ Example C07_example :
 Proof. split; [unfold C07_example_state; apply C07_invariant; reflexivity|reflexivity]. Qed.
 
 (* premises of C07_restart_transparent are met by a non-trivial state, and the statement computes *)
+Definition C07_ex_s := rrun (rinit 7) [RPick 1; RPick 2; RPick 1; RPick 2].
 Example C07_example_restart :
-  let s := rrun (rinit 7) [RPick 1; RPick 2; RPick 1; RPick 2] in
-  RI s /\ 2 <= length (issued s) /\
-  map repick (skipn (length (issued s) - 2) (issued s)) = [RPick 1; RPick 2] /\
-  rrun (rstep s (RRestart 2 true)) [RPick 1; RPick 2] = s /\
-  rrun (rstep s (RRestart 2 false)) [RPick 1; RPick 2] <> s.
+  RI C07_ex_s /\ 2 <= length (issued C07_ex_s) /\
+  map repick (skipn (length (issued C07_ex_s) - 2) (issued C07_ex_s)) = [RPick 1; RPick 2] /\
+  rrun (rstep C07_ex_s (RRestart 2 true)) [RPick 1; RPick 2] = C07_ex_s /\
+  rrun (rstep C07_ex_s (RRestart 2 false)) [RPick 1; RPick 2] <> C07_ex_s.
 Proof.
-  cbv zeta. split; [apply C07_invariant; reflexivity|]. split; [cbn; lia|]. split; [reflexivity|].
+  split; [apply C07_invariant; reflexivity|]. split; [vm_compute; lia|]. split; [reflexivity|].
   split; [reflexivity|]. vm_compute. discriminate.
 Qed.
